@@ -273,6 +273,13 @@ class Program:
             self.rename_notes = list(self.rename_notes) + notes
         except Exception as e:      # never let the normalisation itself break a run
             self.rename_notes = list(self.rename_notes) + ["inlining of new helper functions failed (%r); analysed as written" % (e,)]
+        try:
+            from . import normalize
+            n_eq = normalize.enum_eq_to_switch(raws, renames.CRATES)
+            if n_eq:
+                self.rename_notes = list(self.rename_notes) + ["%d `==` comparisons with a token-kind constant read as match arms" % n_eq]
+        except Exception as e:
+            self.rename_notes = list(self.rename_notes) + ["comparison normalisation failed (%r); analysed as written" % (e,)]
         for f in FACT_FILES:
             if f not in raws:
                 continue
